@@ -611,7 +611,7 @@ func genRoot(g *Gen, flavour int) rootDesc {
 		nlines = g.Intn(3)
 	}
 	for k := 0; k < nlines; k++ {
-		switch g.Intn(14) {
+		switch g.Intn(15) {
 		case 0: // existing unrecorded file
 			b.file("/home/user/notes" + fmt.Sprint(k))
 			lines = append(lines, "file /home/user/notes"+fmt.Sprint(k)+g.Pick("", " mod=0600", " uid=7", " gid=8", " mod=u+x", " mod=a-w uid=3:4", " mod=a-x,u+x", " mod=-r,u+r", " mod=a-rwx,u+rw,g+r", " mod=u+s,a-s,g+s", " uid=250:0", " uid=0:0"))
@@ -682,6 +682,11 @@ func genRoot(g *Gen, flavour int) rootDesc {
 				ext.file("/many/deeper/still/f1")
 				lines = append(lines, "dir /copies src=$EXT/many/*")
 			}
+		case 14: // names that are not clean paths
+			b.file("/home/user/unclean" + fmt.Sprint(k))
+			lines = append(lines, g.Pick("dir /uncl"+fmt.Sprint(k)+"/", "file /home/user//unclean"+fmt.Sprint(k), "file /home/./user/unclean"+fmt.Sprint(k),
+				"dir /uncl"+fmt.Sprint(k)+"//deeper", "dir /uncl"+fmt.Sprint(k)+"/a/../b", "file /home/user/unclean"+fmt.Sprint(k)+"/",
+				"omit /etc//passwd", "omit /etc/./fstab", "dir /etc/", "omit /usr/../etc/group"))
 		case 13:
 			if flavour == 3 {
 				lines = append(lines, g.Pick("omit /not/a/member", "file /does/not/exist", "file /etc", "symlink /no/target"))
@@ -717,6 +722,11 @@ func genStageCases(op string) func(g *Gen, tier string, emit func(Case)) {
 			c := Case{"op": op, "desc": d.toJSON(), "flavour": flavour}
 			if tier == "thorough" && i%3 == 0 {
 				c["deep"] = true
+			}
+			if _, deep := c["deep"]; i%5 == 2 && !deep { // (no compressor inside the build root)
+				// the stage of the running system: stagemaker runs chrooted into the build root
+				// with -root /
+				c["slashroot"] = true
 			}
 			emit(c)
 		}
